@@ -3,13 +3,14 @@
 package main
 
 import (
-	"github.com/oauth2-proxy/oauth2-proxy/v7/providers"
 	"context"
-	"os"
 	"fmt"
+	middlewareapi "github.com/oauth2-proxy/oauth2-proxy/v7/pkg/apis/middleware"
+	"github.com/oauth2-proxy/oauth2-proxy/v7/providers"
 	"net/http"
 	"net/http/httptest"
 	"net/url"
+	"os"
 	"strings"
 	"testing"
 	"time"
@@ -146,16 +147,43 @@ func driveC08(t *testing.T, out *vEmitter) {
 	for _, s := range sessions {
 		for ki, k := range keys {
 			for _, v := range lists[k] {
-				for _, k2v := range []string{"", "admins", "nobody"} {
+				// the session's own value for each constraint key: a constraint it satisfies
+				own := map[string]string{"allowed_groups": "", "allowed_emails": "", "allowed_email_domains": ""}
+				if s != nil {
+					if len(s.Groups) > 0 {
+						own["allowed_groups"] = s.Groups[0]
+					}
+					own["allowed_emails"] = s.Email
+					if i := strings.LastIndex(s.Email, "@"); i >= 0 {
+						own["allowed_email_domains"] = s.Email[i+1:]
+					}
+				}
+				for _, k2v := range []string{"", "admins", "nobody", "@own", "@own-both", "@fail-then-own"} {
 					q := ""
 					if v != "" || true {
 						q = k + "=" + v
 					}
-					if k2v != "" {
-						k2 := keys[(ki+1)%3]
-						q += "&" + k2 + "=" + map[string]string{"allowed_groups": k2v, "allowed_emails": k2v + "@example.com", "allowed_email_domains": k2v + ".test"}[k2]
+					k2, k3 := keys[(ki+1)%3], keys[(ki+2)%3]
+					fixed := func(kk, vv string) string {
+						return map[string]string{"allowed_groups": vv, "allowed_emails": vv + "@example.com", "allowed_email_domains": vv + ".test"}[kk]
+					}
+					switch k2v {
+					case "":
+					case "@own": // a second constraint the session satisfies, whatever the first one does
+						q += "&" + k2 + "=" + url.QueryEscape(own[k2])
+					case "@own-both": // ... and a third
+						q += "&" + k2 + "=" + url.QueryEscape(own[k2]) + "&" + k3 + "=" + url.QueryEscape(own[k3])
+					case "@fail-then-own": // one it fails and one it satisfies, in both query orders
+						if ki%2 == 0 {
+							q = k2 + "=" + fixed(k2, "nobody") + "&" + q + "&" + k3 + "=" + url.QueryEscape(own[k3])
+						} else {
+							q += "&" + k3 + "=" + url.QueryEscape(own[k3]) + "&" + k2 + "=" + fixed(k2, "nobody")
+						}
+					default:
+						q += "&" + k2 + "=" + fixed(k2, k2v)
 					}
 					req := httptest.NewRequest("GET", "http://app.example.com/oauth2/auth?"+q, nil)
+					req = middlewareapi.AddRequestScope(req, &middlewareapi.RequestScope{RequestID: "verif"}) // as the real chain does (logging reads it)
 					got := authOnlyAuthorize(req, s)
 					qv := req.URL.Query()
 					out.Case("auth-only", true, vBool(got),
@@ -476,7 +504,6 @@ func vC08FileReload(t *testing.T, out *vEmitter) {
 	}
 }
 
-
 // vFixedIdentityProvider: the configured provider with a redemption that returns a fixed identity and no
 // enrichment, so that the callback's own authorisation decision is what is observed.
 type vFixedIdentityProvider struct {
@@ -489,8 +516,12 @@ func (p *vFixedIdentityProvider) Redeem(context.Context, string, string, string)
 	c.Groups = append([]string(nil), p.sess.Groups...)
 	return &c, nil
 }
-func (p *vFixedIdentityProvider) EnrichSession(context.Context, *sessionsapi.SessionState) error { return nil }
+func (p *vFixedIdentityProvider) EnrichSession(context.Context, *sessionsapi.SessionState) error {
+	return nil
+}
 func (p *vFixedIdentityProvider) GetEmailAddress(context.Context, *sessionsapi.SessionState) (string, error) {
 	return "", providers.ErrNotImplemented
 }
-func (p *vFixedIdentityProvider) ValidateSession(context.Context, *sessionsapi.SessionState) bool { return true }
+func (p *vFixedIdentityProvider) ValidateSession(context.Context, *sessionsapi.SessionState) bool {
+	return true
+}
